@@ -454,12 +454,47 @@ pub fn stream(rng: &mut Rng, max_len: usize) -> (Vec<u8>, u32) {
     let mut s: Vec<u8> = Vec::new();
     let mut tags = 0u32;
     let nseg = rng.range(0, 9) as usize;
+    let mut last_frame: Option<Vec<u8>> = None;
     for _ in 0..nseg {
         if s.len() >= max_len {
             break;
         }
-        let k = rng.below(13);
+        let start = s.len();
+        let k = rng.below(14);
         match k {
+            13 => {
+                // the previous frame again: identical, or with damage / changed reserved bits
+                // (anything that remembers the last frame must not be fooled by a near-copy)
+                if let Some(f) = &last_frame {
+                    let mut g = f.clone();
+                    match rng.below(6) {
+                        0 => {}
+                        1 => g[1] ^= (1 + rng.below(63) as u8) << 2, // reserved bits, stale CRC
+                        2 => {
+                            let nb = g.len() * 8;
+                            let pos = (24 + rng.usize_below((g.len() - 3) * 8)).min(nb - 1);
+                            bits::flip_bit(&mut g, pos);
+                        }
+                        3 => {
+                            g[1] ^= (1 + rng.below(63) as u8) << 2;
+                            crc::fix_crc(&mut g); // reserved bits changed, CRC recomputed: valid
+                        }
+                        4 => {
+                            let n = g.len();
+                            g[n - 1] ^= 1 << rng.below(8);
+                        }
+                        _ => {
+                            if g.len() > 6 {
+                                let pos = 24 + rng.usize_below((g.len() - 6) * 8);
+                                bits::flip_bit(&mut g, pos);
+                                crc::fix_crc(&mut g); // different payload, valid
+                            }
+                        }
+                    }
+                    s.extend(g);
+                    tags |= 2048;
+                }
+            }
             12 => {
                 // a valid frame whose own header / payload bytes look like preambles:
                 // byte 1 == 0xD3 (reserved bits 110100, length 768..=1023), and/or low length
@@ -571,6 +606,13 @@ pub fn stream(rng: &mut Rng, max_len: usize) -> (Vec<u8>, u32) {
                 tags |= 512;
             }
         }
+        // remember the last complete valid frame appended by this segment, if it is one
+        if s.len() >= start + 6 && s[start] == 0xD3 {
+            let l = (((s[start + 1] & 3) as usize) << 8) | s[start + 2] as usize;
+            if s.len() == start + l + 6 && crc::crc24q(&s[start..start + l + 3]) == ((s[start + l + 3] as u32) << 16 | (s[start + l + 4] as u32) << 8 | s[start + l + 5] as u32) {
+                last_frame = Some(s[start..].to_vec());
+            }
+        }
     }
     s.truncate(max_len);
     (s, tags)
@@ -617,7 +659,7 @@ fn pick_len(rng: &mut Rng) -> usize {
     }
 }
 
-pub const STREAM_TAGS: [&str; 11] = [
+pub const STREAM_TAGS: [&str; 12] = [
     "valid_random_frame",
     "valid_typed_frame",
     "garbage",
@@ -629,4 +671,5 @@ pub const STREAM_TAGS: [&str; 11] = [
     "nested_in_valid_outer",
     "stray_preamble_before_frame",
     "frame_with_preamble_lookalike_header",
+    "previous_frame_repeated_with_variation",
 ];
